@@ -171,6 +171,7 @@ def run(spec):
     seams.attach(p)
     ix = D.index(p)
     shadow = []
+    abs_fresh = False
     productive = 0
     last_cfg = spec["cfg"]
     ops = [{"op": "sim", "cfg": spec["cfg"]}] + list(spec.get("ops", []))
@@ -242,6 +243,19 @@ def run(spec):
             break
         if not compare(res, ix, p, shadow, kind, opi):
             break
+        if kind in ("sim", "backward") and cfg.get("init_log", True):
+            abs_fresh = True
+        elif kind != "reverse_log":
+            abs_fresh = False
+        if abs_fresh and out.ok:
+            # the project's registered absence steps (within the run) are the log indices of the non-working steps
+            want_abs = sorted(i_ for i_, e_ in enumerate(shadow) if not e_["working"])
+            got_abs = sorted(set(a_ for a_ in p.absence_time_list if 0 <= a_ < len(shadow)))
+            res.count("registered_absence_steps_checked")
+            if got_abs != want_abs:
+                res.add("entry", "C08.absence_time_list_vs_logged_absence_steps.after_%s" % kind,
+                        "after op %d (%s): project.absence_time_list names %s within the run, the steps recorded as absence steps are %s"
+                        % (opi, kind, got_abs, want_abs), None)
         # the cost logs of step k at the six levels describe the same step
         for i in range(len(p.cost_list)):
             tsum = sum(w.cost_list[i] for w in ix.workers) + sum(f.cost_list[i] for f in ix.facs)
